@@ -186,6 +186,24 @@ Fixpoint c17_veq (s : c17_cstyle) (eps : fl) (a b : list fl) : bool :=
   | _, _ => false
   end.
 
+(* gt / lt / ge / le on std::vector<T> (and FieldVector<T,1>): `first > second` is the lexicographic three-way comparison
+   of the C++20 operator<=> of std::vector: the first non-equivalent pair decides (an unordered pair makes the
+   result unordered, then neither < nor > holds), a proper prefix is less *)
+Fixpoint c17_vlex (a b : list fl) : option comparison :=
+  match a, b with
+  | [], [] => Some Eq
+  | [], _ :: _ => Some Lt
+  | _ :: _, [] => Some Gt
+  | x :: a', y :: b' => match Bcompare x y with Some Eq => c17_vlex a' b' | c => c end
+  end.
+Definition c17_vfgt (a b : list fl) : bool := match c17_vlex a b with Some Gt => true | _ => false end.
+Definition c17_vflt (a b : list fl) : bool := match c17_vlex a b with Some Lt => true | _ => false end.
+Definition c17_vne s eps a b := negb (c17_veq s eps a b).
+Definition c17_vgt s eps a b := c17_vfgt a b && c17_vne s eps a b.
+Definition c17_vlt s eps a b := c17_vflt a b && c17_vne s eps a b.
+Definition c17_vge s eps a b := c17_vfgt a b || c17_veq s eps a b.
+Definition c17_vle s eps a b := c17_vflt a b || c17_veq s eps a b.
+
 (* I(val): conversion float -> integer type t truncates toward zero; UB when the truncated value
    is not representable in t (includes NaN and infinities) *)
 Definition c17_cast (t : c17_ity) (v : fl) : c17_ires :=
